@@ -195,7 +195,8 @@ def kbmag_text(table, layout):
     layout = dict of printer variations (all optional):
       recname, indent, eol ('\n' | '\r\n'), trailing_newline, assign (' := ' | ':=' | ' :=' ...),
       comma (',' | ', '), accepting ('interval' | 'list'), initial_interval (bool),
-      field_order (permutation seed list), row_break (bool)
+      field_order (permutation seed list), row_break (bool), row_interval (bool: rows of consecutive
+      integers are written [a..b])
     """
     names, n, trans, initial = table["names"], table["n"], table["transitions"], table["initial"]
     eol = layout.get("eol", "\n")
@@ -217,7 +218,13 @@ def kbmag_text(table, layout):
     else:
         init_s = lst(initial)
     rowsep = "," + (eol + ind * 3 if layout.get("row_break", True) else "")
-    rows = "[" + rowsep.join(lst(r) for r in trans) + (" " if layout.get("row_pad") else "") + \
+
+    def row(r):
+        # GAP prints a list of consecutive integers as an interval
+        if layout.get("row_interval") and len(r) >= 2 and list(r) == list(range(r[0], r[0] + len(r))):
+            return "[%d..%d]" % (r[0], r[-1])
+        return lst(r)
+    rows = "[" + rowsep.join(row(r) for r in trans) + (" " if layout.get("row_pad") else "") + \
            (eol + ind * 3 if layout.get("row_break", True) else "") + "]"
     ntr = sum(1 for r in trans for t in r if t != 0)
     fields = [
